@@ -264,7 +264,9 @@ def post(cfg, inp, ob):
     for i, (c, w) in enumerate(zip(codes, want)):
         out.append(('value_%d' % i, SP.dy_eq((c, -fz), w)))
     st = ob['status']
-    out.append(('no_overflow_or_underflow', not (st['overflow'] or st['underflow'])))
+    if not (cfg['fn'] == 'sort' and cfg['route'] == 'method' and cfg.get('age') == 'sticky_flags'):
+        # (x.sort() sorts in place and hands back x itself: flags raised on x earlier are still its own)
+        out.append(('no_overflow_or_underflow', not (st['overflow'] or st['underflow'])))
     shape = tuple(cfg['shape'])
     a = [inp['a%d' % i] for i in range(C.size_of(shape))]
     if not (cfg['fn'] == 'sort' and cfg['route'] == 'method'):          # x.sort() sorts in place, like ndarray.sort()
